@@ -94,6 +94,10 @@ func (d *mapDecoder) DecodeStream(s *Stream, depth int64, p unsafe.Pointer) erro
 		return nil
 	}
 	for {
+		// a member name is a string, whatever the key type decodes from
+		if s.skipWhiteSpace() != '"' {
+			return errors.ErrExpected("string for object key", s.totalOffset())
+		}
 		k := unsafe_New(d.keyType)
 		if err := d.keyDecoder.DecodeStream(s, depth, k); err != nil {
 			return err
@@ -157,6 +161,11 @@ func (d *mapDecoder) Decode(ctx *RuntimeContext, cursor, depth int64, p unsafe.P
 		return cursor, nil
 	}
 	for {
+		// a member name is a string, whatever the key type decodes from
+		cursor = skipWhiteSpace(buf, cursor)
+		if buf[cursor] != '"' {
+			return 0, errors.ErrExpected("string for object key", cursor)
+		}
 		k := unsafe_New(d.keyType)
 		keyCursor, err := d.keyDecoder.Decode(ctx, cursor, depth, k)
 		if err != nil {
@@ -227,6 +236,10 @@ func (d *mapDecoder) DecodePath(ctx *RuntimeContext, cursor, depth int64) ([][]b
 	}
 	ret := [][]byte{}
 	for {
+		cursor = skipWhiteSpace(buf, cursor)
+		if buf[cursor] != '"' {
+			return nil, 0, errors.ErrExpected("string for object key", cursor)
+		}
 		key, keyCursor, err := keyDecoder.decodeByte(buf, cursor)
 		if err != nil {
 			return nil, 0, err
